@@ -619,6 +619,7 @@ fn catalogue(tc: &mut Tc<'_>) -> u64 {
 	shape_33(cx);
 	shape_34(cx);
 	shape_35(cx);
+	shape_36(cx);
 	cx.cases
 }
 
@@ -988,6 +989,17 @@ fn shape_35(cx: &mut Cx<'_, '_>) {
 	}
 }
 
+fn shape_36(cx: &mut Cx<'_, '_>) {
+	// a zero-sized owned collection as a member: it occupies no memory, so it can share its
+	// address with the sibling next to it - two different (non-duplicate) members at one address.
+	// Only the constructors for owned inputs are used (try_new over such a shape is the D8 note).
+	owned_shapes_w!(cx, "(Owned<[M;0]>,M,M)", |ids| (OwnedLockCollection::new([] as [M; 0]), leaf!(cx, ids, M), leaf!(cx, ids, M)));
+	owned_shapes_w!(cx, "(M,Owned<[M;0]>,M)", |ids| (leaf!(cx, ids, M), OwnedLockCollection::new([] as [M; 0]), leaf!(cx, ids, M)));
+	owned_shapes_w!(cx, "(M,M,Owned<[M;0]>)", |ids| (leaf!(cx, ids, M), leaf!(cx, ids, M), OwnedLockCollection::new([] as [M; 0])));
+	owned_shapes_rw!(cx, "(Owned<[R;0]>,R,R)", |ids| (OwnedLockCollection::new([] as [R; 0]), leaf!(cx, ids, R), leaf!(cx, ids, R)));
+	owned_shapes_rw!(cx, "(Owned<Vec<R>>(empty),R)", |ids| (OwnedLockCollection::new(Vec::<R>::new()), leaf!(cx, ids, R)));
+}
+
 pub fn run(cfg: &RunCfg) -> Report {
 	let reps: u64 = if cfg.thorough { 64 } else { 4 };
 	let (mut rep, _) = par_run(cfg, reps * 2, |i, rep| {
@@ -1054,6 +1066,6 @@ pub fn run(cfg: &RunCfg) -> Report {
 			("ops", J::s("declared order is the reverse of the sorted order; guard/data position i must reach member i")),
 		]));
 	}
-	rep.rule = "static catalogue of happylock's own container impls under the audit locks: tuples of arity 1..7 (Mutex / RwLock / Poisonable mixes; all-Sharable ones also in read mode), arrays [T; 0..4], Box<[T]>, Vec, nested owned/retrying/boxed/poisonable collections, &T and &mut T, collections that are used while empty and then grown / shrunk through Extend, child_mut and AsMut (re-exercised after every change), locks with ZERO-SIZED payloads (Mutex<Z> / RwLock<Z>: directly, Poisonable-wrapped, in tuples / arrays / Vec, next to ordinary members; position checks off, hold checks on), tuples/arrays/boxed slices of references listed in reverse and mixed orders, each through Boxed / Ref / Owned / Retrying {new, new_ref, try_new}; per collection: lock, try_lock free and with every single position pre-held (shared and exclusive), scoped_lock, and the read variants; monitors: holds exactly the leaves, position i reaches member i (payload names its lock), failed try leaves the owner table unchanged, closure runs once with all locks held; evaluations = API calls checked; distinct = catalogue entries".into();
+	rep.rule = "static catalogue of happylock's own container impls under the audit locks: tuples of arity 1..7 (Mutex / RwLock / Poisonable mixes; all-Sharable ones also in read mode), arrays [T; 0..4], Box<[T]>, Vec, nested owned/retrying/boxed/poisonable collections, &T and &mut T, tuples with a zero-sized owned collection at every position (two distinct members at one address), collections that are used while empty and then grown / shrunk through Extend, child_mut and AsMut (re-exercised after every change), locks with ZERO-SIZED payloads (Mutex<Z> / RwLock<Z>: directly, Poisonable-wrapped, in tuples / arrays / Vec, next to ordinary members; position checks off, hold checks on), tuples/arrays/boxed slices of references listed in reverse and mixed orders, each through Boxed / Ref / Owned / Retrying {new, new_ref, try_new}; per collection: lock, try_lock free and with every single position pre-held (shared and exclusive), scoped_lock, and the read variants; monitors: holds exactly the leaves, position i reaches member i (payload names its lock), failed try leaves the owner table unchanged, closure runs once with all locks held; evaluations = API calls checked; distinct = catalogue entries".into();
 	rep
 }
